@@ -2,9 +2,12 @@
 Window-size reporting of signals_unix.go / tty.go / tea.go / commands.go as a labelled
 transition system (C18, second half).
 
-   handleResize():      if output is a terminal { go p.checkResize(); go p.listenForResize(done) }
+   handleResize():      if output is a terminal { go p.listenForResize(done) }
    listenForResize():   sig := make(chan os.Signal, 1); signal.Notify(sig, SIGWINCH)
+                        p.checkResize()     -- the initial size, AFTER the subscription
                         for { select { case <-ctx.Done(): return; case <-sig: }; p.checkResize() }
+     (until the repair of the start-up:  handleResize() { go p.checkResize(); go p.listenForResize(done) },
+      no `checkResize` in `listenForResize` before its loop - see "Start-up" below)
    checkResize():       w, h := term.GetSize(fd);  p.Send(WindowSizeMsg{w, h})
    event loop:          case windowSizeMsg (the WindowSize() command): go p.checkResize()
    os/signal:           a signal is delivered into `sig` with a non-blocking send: if the 1-slot
@@ -26,6 +29,14 @@ such an execution is the one of the model with that step BEFORE `cancel`: `cance
 the flag, and the guards of `resize` / `query` do not look at it.)  Nothing is promised after
 cancellation; how the goroutines are collected is the subject of the Lifecycle LTS
 (`resizeExit`).
+
+Start-up.  `St` / `step` / `stepL` describe the program while the listener is subscribed to
+SIGWINCH (`resize` always raises the signal), and `init` is the start-up as it used to be, seen
+from there: one start-up checker in flight, the listener waiting.  The SUBSCRIPTION itself -
+`signal.Notify` is a step of the listener goroutine, and a resize before it changes the size and
+raises no signal - is the START-UP LAYER at the end of this file (`StS`; `stepOldS`: the start-up
+as it was, the start-up query a goroutine of its own racing with the subscription; `stepNewS`:
+the current code, the listener subscribes first and performs the initial query itself).
 
 Not modelled: `term.GetSize` failing (checkResize returns without a message), output not being
 a terminal (neither goroutine exists), Windows (no SIGWINCH: only the checkers exist).
@@ -305,5 +316,129 @@ take a signal while it is sending). -/
 def SenderOk (s : St) : Prop :=
   s.cancelled = false → ∀ sz ∈ sendingNow s, sz ≠ s.size →
     s.pending = true ∨ s.listener = .querying
+
+/-! ### the START-UP LAYER: the subscription to SIGWINCH is a step of the listener
+
+The start-up used to be
+
+    handleResize():      go p.checkResize()            -- the start-up query, a goroutine of its own
+                         go p.listenForResize(done)    -- sig := make(chan, 1); signal.Notify(sig, SIGWINCH); loop
+
+so a resize AFTER the start-up query had read the size and BEFORE `signal.Notify` raised a signal
+nobody was subscribed to (the Go runtime ignores SIGWINCH then): the stale size stayed the last
+one reported (`stepOldS`, `C18S_resize_before_subscription_lost`; reproduced on the real code).
+The code is now
+
+    handleResize():      go p.listenForResize(done)
+    listenForResize():   sig := make(chan, 1); signal.Notify(sig, SIGWINCH)
+                         p.checkResize()               -- the initial size, AFTER the subscription
+                         loop as before
+
+(`stepNewS`).  Both systems are layers on top of `stepL` - state, labels and steps of the core
+are untouched: the layer adds the flag `subscribed`, the step `subscribe` of the listener
+(internal: nothing it waits for), and the rule that a resize while nobody is subscribed changes
+the size only.  While not subscribed the listener does nothing else in either system (`take`
+needs `pending`, which only a subscribed resize sets; `StartupInv`); WindowSize commands may
+already start checkers - ordinary checkers of the core.  `subscribe` is disabled once the
+program is cancelled (the listener leaves; nothing is promised after cancellation). -/
+
+structure StS where
+  core : St
+  subscribed : Bool := false          -- `signal.Notify(sig, SIGWINCH)` has returned
+  deriving DecidableEq, Repr
+
+inductive LabelS where
+  | subscribe                         -- the listener's `signal.Notify`
+  | core (l : Label)
+  deriving DecidableEq, Repr
+
+def LabelS.isInternal : LabelS → Bool
+  | .subscribe => true
+  | .core l => l.isInternal
+
+/-- a resize while nobody is subscribed changes the size and raises no signal -/
+def resizeUnsub (s : St) (sz : Size) : St := { s with size := sz }
+
+/-- a step of the core under the start-up layer (the same in both systems): a resize while not
+subscribed is `resizeUnsub`, everything else is `stepL` -/
+def coreStep (subscribed : Bool) (c : St) (l : Label) : Option St :=
+  match subscribed, l with
+  | false, .resize sz => some (resizeUnsub c sz)
+  | _, l => stepL c l
+
+/-- the start-up BEFORE the repair: `subscribe` only sets the flag (the start-up query is the
+checker `init` starts with) -/
+def stepOldS (s : StS) : LabelS → Option StS
+  | .subscribe =>
+    match s.subscribed, s.core.cancelled with
+    | false, false => some { s with subscribed := true }
+    | _, _ => none
+  | .core l =>
+    match coreStep s.subscribed s.core l with
+    | some c => some { s with core := c }
+    | none => none
+
+/-- the start-up checker in flight, the listener waiting, not subscribed -/
+def initOldS (sz : Size) : StS := { core := init sz }
+
+/-- the start-up AFTER the repair: `subscribe` sets the flag AND puts the listener (`waiting`
+until then) into `querying`: it performs the initial query itself, driven by `stepL` from there
+(query under the mutex, deliver, waiting) -/
+def stepNewS (s : StS) : LabelS → Option StS
+  | .subscribe =>
+    match s.subscribed, s.core.cancelled with
+    | false, false => some { core := { s.core with listener := .querying }, subscribed := true }
+    | _, _ => none
+  | .core l =>
+    match coreStep s.subscribed s.core l with
+    | some c => some { s with core := c }
+    | none => none
+
+/-- no start-up checker, the listener waiting, not subscribed -/
+def initNewS (sz : Size) : StS := { core := { size := sz, checkers := [] } }
+
+inductive ReachableOldS (sz : Size) : StS → Prop where
+  | init : ReachableOldS sz (initOldS sz)
+  | step {s s' : StS} (l : LabelS) :
+    ReachableOldS sz s → stepOldS s l = some s' → ReachableOldS sz s'
+
+inductive ReachableNewS (sz : Size) : StS → Prop where
+  | init : ReachableNewS sz (initNewS sz)
+  | step {s s' : StS} (l : LabelS) :
+    ReachableNewS sz s → stepNewS s l = some s' → ReachableNewS sz s'
+
+def runLabelsOldS (s : StS) : List LabelS → Option StS
+  | [] => some s
+  | l :: ls => match stepOldS s l with
+    | some s' => runLabelsOldS s' ls
+    | none => none
+
+def runLabelsNewS (s : StS) : List LabelS → Option StS
+  | [] => some s
+  | l :: ls => match stepNewS s l with
+    | some s' => runLabelsNewS s' ls
+    | none => none
+
+/-- nothing left to do, and the listener is subscribed -/
+def QuiescentS (s : StS) : Prop := s.subscribed = true ∧ Quiescent s.core
+
+instance (s : StS) : Decidable (QuiescentS s) := by unfold QuiescentS; infer_instance
+
+/-- the invariant of the repaired start-up: before the subscription the listener has done
+nothing (it is waiting, no signal is in its channel); from the subscription on - which makes the
+listener `querying` - the two invariants of the repaired core hold -/
+def StartupInv (s : StS) : Prop :=
+  (s.subscribed = false ∧ s.core.listener = .waiting ∧ s.core.pending = false) ∨
+  (s.subscribed = true ∧ Fresh s.core ∧ SenderOk s.core)
+
+/-- the labels of the core in a run of the layered system -/
+def coreLabels : List LabelS → List Label
+  | [] => []
+  | .subscribe :: ls => coreLabels ls
+  | .core l :: ls => l :: coreLabels ls
+
+/-- the number of internal steps to `QuiescentS`: the subscription, then the listener's initial
+query and its delivery, on top of the core's `rank` -/
+def rankS (s : StS) : Nat := rank s.core + (if s.subscribed then 0 else 3)
 
 end Tea.Runtime.Resize
